@@ -12,6 +12,10 @@
  R4 parser side: the content parser's keyword dispatch has an arm for each of the text operators.
  R5 the form-XObject recursion carries a depth counter compared against a constant.
  R6 determinism: no unordered (hash) iteration and no clock/RNG in the extractor's emission path.
+ R7 resource scoping: the routine that installs a font under its resource name (called for the page's fonts and again for
+    the /Resources of every Form XObject entered) overwrites: every path through it reaches the insert into the name-keyed
+    font cache, and no presence test on that cache (`contains_key`, `get`, `entry`) can skip it — a "skip if already cached"
+    guard makes a form's /F1 decode with the page's /F1.
 Not decided: character counts, reading-order heuristics, ToUnicode arithmetic.
 """
 from .. import lib as L
@@ -33,6 +37,7 @@ TEXT_KEYWORDS = ["BT", "ET", "Tc", "Tw", "Tz", "TL", "Tf", "Tr", "Ts", "Td", "TD
 
 
 def run(ctx):
+    r7_font_scoping(ctx)
     facts = ctx.facts
     fn = ctx.fn(PO, "anchor")
     ms = [m for m in facts.matches.get(PO, []) if m["sty"].endswith("parser::content::ContentOperation")]
@@ -322,3 +327,26 @@ def run(ctx):
     OR.check_scope(ctx, "R6", [PO, "text::extraction::TextExtractor::extract_from_page", "text::extraction::emit_text_fragment"],
                    scope_prefixes=["text::extraction", "text::flat_reading_order", "text::extraction_cmap", "text::graphics_state_stack"],
                    what="extracted text")
+
+
+def r7_font_scoping(ctx):
+    fn = ctx.fn("text::extraction::TextExtractor::cache_page_font", "R7")
+    g = CF.cfg(fn)
+    ins = [b for b, c, a, d in L.calls_to(fn, ["insert"]) if (L.recv_of(fn, a) or (None, []))[1][-1:] == ["font_cache"]]
+    key = "cache_page_font:installs-unconditionally"
+    if not ctx.floor("R7", "insert into the name-keyed font cache", len(ins), 1):
+        return
+    tests = [(b, c) for b, c, a, d in L.calls_to(fn, ["contains_key", "get", "entry", "get_mut"])
+             if (L.recv_of(fn, a) or (None, []))[1][-1:] == ["font_cache"]]
+    rets = g.return_blocks()
+    w = g.path(0, rets, avoid_blocks=ins)
+    if tests:
+        ctx.violation("R7", key, "cache_page_font consults the name-keyed font cache (%s) before installing the font: a name that is "
+                      "already present — the enclosing page's or form's font of the same resource name — is kept, so text drawn inside a "
+                      "Form XObject with its own /Font /F1 is decoded with the outer /F1 and comes out as different characters"
+                      % L.short(tests[0][1]["p"]), fn.where(tests[0][0]))
+    elif w is not None:
+        ctx.violation("R7", key, "a path through cache_page_font returns without installing the font under its resource name "
+                      "(line(s) %s)" % sorted(set(fn.line(x) for x in w))[:8], fn.where(w[-1]))
+    else:
+        ctx.ok("R7", key, "every path installs (overwrites) the font under its resource name; no presence test on the cache", fn.where(ins[0]))
